@@ -14,6 +14,7 @@ import (
 	"math"
 	"os"
 	"reflect"
+	"runtime"
 	"sort"
 	"strings"
 	"time"
@@ -267,6 +268,14 @@ func main() {
 	flag.Parse()
 	logrus.SetOutput(io.Discard)
 	logrus.SetLevel(logrus.PanicLevel)
+	// watchdog of the driver itself: a whole run takes seconds; if it is still going after 5 minutes say where it is and
+	// give up as a machinery error (exit 2), never as a verdict
+	go func() {
+		time.Sleep(5 * time.Minute)
+		buf := make([]byte, 1<<20)
+		fmt.Fprintf(os.Stderr, "rpc driver watchdog: still running after 5 minutes (calls so far %d, per combination %v)\n%s\n", res.Calls, res.PerCombo, buf[:runtime.Stack(buf, true)])
+		os.Exit(2)
+	}()
 	raw, err := os.ReadFile(*in)
 	if err != nil {
 		fmt.Fprintln(os.Stderr, err)
